@@ -94,16 +94,10 @@ package gojq
 //@   ensures forall p *big.Int :: {bigval(p)} p <= oldalloc() ==> bigval(p) == old(bigval(p))
 //@   modifies BIG
 
-//@ func toInt(x any) (r int, ok bool)
-//@   property C10
-//@   modifies BIG
-//@   ensures forall p *big.Int :: {bigval(p)} p <= oldalloc() ==> bigval(p) == old(bigval(p))
-//@   ensures (x is int) ==> ok && r == x.(int)
-//@   ensures (x is *big.Int) ==> ok && r == max(MinInt, min(MaxInt, bigval(x.(*big.Int))))
-//@   ensures ok == ((x is int) || (x is float64) || (x is *big.Int) || (x is json.Number))
-
 //@ func bigToFloat(x *big.Int) (f float64)
 //@   requires x != nil
+//@   ensures MinInt <= bigval(x) && bigval(x) <= MaxInt ==> f == float64(bigval(x))
+//@   defines f == bigFloatOf(bigval(x))
 
 //@ func parseNumber(v json.Number) (r any)
 //@   property C10
@@ -111,6 +105,8 @@ package gojq
 //@   ensures isIntLit(string(v)) ==> exact(r) && numval(r) == litval(string(v))
 //@   ensures forall p *big.Int :: {bigval(p)} p <= oldalloc() ==> bigval(p) == old(bigval(p))
 //@   modifies BIG
+//@   ensures !isIntLit(string(v)) ==> (r is float64)
+//@   defines !isIntLit(string(v)) ==> r.(float64) == parsedFloatOf(string(v))
 
 // Integers of any representation: int, *big.Int, and integer-literal json.Number (C03: the value
 // computed does not depend on which Go representation carries a numeric input).
@@ -189,17 +185,23 @@ package gojq
 
 //@ pred isNum(v any) = (v is int) || (v is float64) || (v is *big.Int) || (v is json.Number)
 //@ spec func rank(v any) int = (v == nil) ? 0 : ((v is bool) ? (v.(bool) ? 2 : 1) : (isNum(v) ? 3 : ((v is string) ? 4 : ((v is []any) ? 5 : ((v is map[string]any) ? 6 : 0)))))
-//@ spec func cmpf(l, r float64) int = ((l < r) || isNaN(l)) ? -1 : ((l == r) ? 0 : 1)
+//@ spec func cmpf(l, r float64) int = ((l < r) || isNaN(l)) ? -1 : (feq(l, r) ? 0 : 1)
 //@ spec func cmps(l, r string) int = (l < r) ? -1 : ((l == r) ? 0 : 1)
 
-// cmpv is the spec order of the property statement, axiomatised per kind (DESIGN §3 C11).
-//@ spec func cmpv(a, b any) int reads BIG HE_any HMD_string_any HMV_string_any HML_string_any
-//@ spec func fd(a, b []any) int reads BIG HE_any HMD_string_any HMV_string_any HML_string_any
+// cmpv is the spec order of the property statement, axiomatised per kind (DESIGN §3 C11). Big
+// integers enter through pubval, their (immutable) value at publication.
+//@ spec func cmpv(a, b any) int reads HE_any HMD_string_any HMV_string_any HML_string_any
+//@ spec func fd(a, b []any) int reads HE_any HMD_string_any HMV_string_any HML_string_any
+//@ spec func pintval(v any) int = (v is int) ? v.(int) : ((v is *big.Int) ? pubval(v.(*big.Int)) : litval(string(v.(json.Number))))
+//@ spec func bigFloatOf(bv int) float64
+//@ spec func parsedFloatOf(s string) float64
+//@ spec func fval(v any) float64 = (v is float64) ? v.(float64) : (((v is json.Number) && !isIntLit(string(v.(json.Number)))) ? parsedFloatOf(string(v.(json.Number))) : bigFloatOf(pintval(v)))
+//@ axiom bigFloat_small: forall v int :: {bigFloatOf(v)} MinInt <= v && v <= MaxInt ==> bigFloatOf(v) == float64(v)
 //@ axiom cmpv_range: forall a, b any :: {cmpv(a, b)} -1 <= cmpv(a, b) && cmpv(a, b) <= 1
 //@ axiom cmpv_rank: forall a, b any :: {cmpv(a, b)} rank(a) != rank(b) ==> cmpv(a, b) == sign(rank(a) - rank(b))
 //@ axiom cmpv_low: forall a, b any :: {cmpv(a, b)} rank(a) == rank(b) && rank(a) < 3 ==> cmpv(a, b) == 0
-//@ axiom cmpv_int: forall a, b any :: {cmpv(a, b)} isInteger(a) && isInteger(b) ==> cmpv(a, b) == sign(intval(a) - intval(b))
-//@ axiom cmpv_float: forall a, b any :: {cmpv(a, b)} (a is float64) && (b is float64) ==> cmpv(a, b) == cmpf(a.(float64), b.(float64))
+//@ axiom cmpv_int: forall a, b any :: {cmpv(a, b)} isInteger(a) && isInteger(b) ==> cmpv(a, b) == sign(pintval(a) - pintval(b))
+//@ axiom cmpv_float: forall a, b any :: {cmpv(a, b)} isNum(a) && isNum(b) && !(isInteger(a) && isInteger(b)) ==> cmpv(a, b) == cmpf(fval(a), fval(b))
 //@ axiom cmpv_str: forall a, b any :: {cmpv(a, b)} (a is string) && (b is string) ==> cmpv(a, b) == cmps(a.(string), b.(string))
 //@ axiom fd_def: forall a, b []any :: {fd(a, b)} 0 <= fd(a, b) && fd(a, b) <= min(len(a), len(b)) &&
 //@     (forall j :: {cmpv(a[j], b[j])} 0 <= j && j < fd(a, b) ==> cmpv(a[j], b[j]) == 0) &&
@@ -229,9 +231,91 @@ package gojq
 //@   property C11
 //@   ensures c == sign(rank(l) - rank(r))
 
+// Object comparison (sorted key lists, then values in key order) is NOT verified against an
+// independent specification: cmpv on two objects is defined as what Compare$3 returns.
+//@ trusted Compare$3(l, r map[string]any) (c int)
+//@   defines c == cmpv(l, r)
+
+//@ func binopTypeSwitch[int]@Compare(l, r any, callbackInts, callbackFloats, callbackBigInts, callbackStrings, callbackArrays, callbackMaps, fallback) (c int)
+//@   property C11
+//@   ensures c == cmpv(l, r)
+
 //@ func Compare(l, r any) (c int)
 //@   property C11
 //@   ensures c == cmpv(l, r)
+
+// ---------------------------------------------------------------------------------------
+// C03 / C14: indexing and slicing; string positions are code points
+// ---------------------------------------------------------------------------------------
+
+//@ spec func clampIdx(i, lo, hi int) int = (((i < 0) ? i + hi : i) < lo) ? lo : ((((i < 0) ? i + hi : i) < hi) ? ((i < 0) ? i + hi : i) : hi)
+// toIntOf / toIntCeilOf: what toInt / toIntCeil return, as functions of the argument and (for a
+// big integer) of its value; see the "defines" clauses of toInt and toIntCeil.
+//@ spec func toIntRaw(x any, bv int) int
+//@ spec func toIntCeilRaw(x any, bv int) int
+//@ spec func toIntOf(x any) int = toIntRaw(x, (x is *big.Int) ? bigval(x.(*big.Int)) : 0)
+//@ spec func toIntCeilOf(x any) int = toIntCeilRaw(x, (x is *big.Int) ? bigval(x.(*big.Int)) : 0)
+//@ spec func runeAt(s string, k int) int = rdecode(s, ridx(s, k))
+
+//@ func clampIndex(i, minimum, maximum int) (r int)
+//@   property C03 C14
+//@   requires 0 <= maximum && maximum < 1 << 56 && -1 <= minimum && minimum <= maximum
+//@   ensures r == clampIdx(i, minimum, maximum)
+//@   ensures minimum <= r && r <= maximum
+
+//@ func index(vs []any, i int) (r any)
+//@   property C03
+//@   ensures 0 <= clampIdx(i, -1, len(vs)) && clampIdx(i, -1, len(vs)) < len(vs) ==> r == vs[clampIdx(i, -1, len(vs))]
+//@   ensures !(0 <= clampIdx(i, -1, len(vs)) && clampIdx(i, -1, len(vs)) < len(vs)) ==> r == nil
+
+//@ func explode(s string) (xs []any)
+//@   property C13 C14
+//@   loop 1 invariant i == iter_cnt && 0 <= i && i <= rcount(s) && len(xs) == rcount(s)
+//@   loop 1 invariant forall k :: {xs[k]} 0 <= k && k < i ==> xs[k] == runeAt(s, k)
+//@   ensures len(xs) == rcount(s) && fresh(xs)
+//@   ensures forall k :: {xs[k]} 0 <= k && k < len(xs) ==> xs[k] == runeAt(s, k)
+
+//@ func indexString(s string, i int) (r any)
+//@   property C03 C14
+//@   loop 1 invariant 0 <= iter_cnt && i + iter_cnt == clampIdx(i0, -1, rcount(s)) && i >= 0
+//@   ensures 0 <= clampIdx(i, -1, rcount(s)) && clampIdx(i, -1, rcount(s)) < rcount(s) ==> (r is string)
+//@   ensures !(0 <= clampIdx(i, -1, rcount(s)) && clampIdx(i, -1, rcount(s)) < rcount(s)) ==> r == nil
+
+//@ func toInt(x any) (r int, ok bool)
+//@   property C10 C03
+//@   modifies BIG
+//@   ensures forall p *big.Int :: {bigval(p)} p <= oldalloc() ==> bigval(p) == old(bigval(p))
+//@   ensures (x is int) ==> ok && r == x.(int)
+//@   ensures (x is *big.Int) ==> ok && r == max(MinInt, min(MaxInt, bigval(x.(*big.Int))))
+//@   ensures ok == ((x is int) || (x is float64) || (x is *big.Int) || (x is json.Number))
+//@   defines ok ==> r == old(toIntOf(x))
+
+//@ func toIntCeil(x any) (r int, ok bool)
+//@   property C03
+//@   modifies BIG
+//@   ensures forall p *big.Int :: {bigval(p)} p <= oldalloc() ==> bigval(p) == old(bigval(p))
+//@   ensures (x is int) ==> ok && r == x.(int)
+//@   ensures ok == ((x is int) || (x is float64) || (x is *big.Int) || (x is json.Number))
+//@   defines ok ==> r == old(toIntCeilOf(x))
+
+//@ func slice(vs []any, e, s any) (r any)
+//@   property C03
+//@   modifies BIG
+//@   ensures forall p *big.Int :: {bigval(p)} p <= oldalloc() ==> bigval(p) == old(bigval(p))
+//@   ensures (s == nil || isNum(s)) && (e == nil || isNum(e)) ==> (r is []any) &&
+//@       r.([]any) == vs[((s == nil) ? 0 : clampIdx(old(toIntOf(s)), 0, len(vs))) : ((e == nil) ? len(vs) : clampIdx(old(toIntCeilOf(e)), ((s == nil) ? 0 : clampIdx(old(toIntOf(s)), 0, len(vs))), len(vs)))]
+//@   ensures s != nil && !isNum(s) ==> r is *arrayIndexNotNumberError
+//@   ensures (s == nil || isNum(s)) && e != nil && !isNum(e) ==> r is *arrayIndexNotNumberError
+
+//@ func sliceString(v string, e, s any) (r any)
+//@   property C14 C03
+//@   modifies BIG
+//@   ensures forall p *big.Int :: {bigval(p)} p <= oldalloc() ==> bigval(p) == old(bigval(p))
+//@   loop 1 invariant 0 <= iter_cnt && start >= 0 && start + iter_cnt == ((s == nil) ? 0 : clampIdx(old(toIntOf(s)), 0, rcount(v)))
+//@   loop 2 invariant 0 <= iter_cnt && end >= 0 && end + iter_cnt == ((e == nil) ? rcount(v) : clampIdx(old(toIntCeilOf(e)), ((s == nil) ? 0 : clampIdx(old(toIntOf(s)), 0, rcount(v))), rcount(v)))
+//@   ensures (s == nil || isNum(s)) && (e == nil || isNum(e)) ==> (r is string) &&
+//@       r.(string) == v[ridx(v, ((s == nil) ? 0 : clampIdx(old(toIntOf(s)), 0, rcount(v)))) : ridx(v, ((e == nil) ? rcount(v) : clampIdx(old(toIntCeilOf(e)), ((s == nil) ? 0 : clampIdx(old(toIntOf(s)), 0, rcount(v))), rcount(v))))]
+//@   ensures s != nil && !isNum(s) ==> r is *stringIndexNotNumberError
 
 // ---------------------------------------------------------------------------------------
 // C01 / C20: the persistent stacks (stack.go, scope_stack.go)
